@@ -138,6 +138,13 @@ impl SendChannelUnreliable {
 }
 
 #[cfg(feature = "verif_hooks")]
+impl SendChannelUnreliable {
+    pub fn verif_seed_sliced_message_id(&mut self, sliced_message_id: u64) {
+        self.sliced_message_id = sliced_message_id;
+    }
+}
+
+#[cfg(feature = "verif_hooks")]
 impl ReceiveChannelUnreliable {
     pub fn verif_memory_usage(&self) -> usize {
         self.memory_usage_bytes
